@@ -1,20 +1,25 @@
 ENTRY = {
     "level": "proof",
-    "families": [fam("C32", 240, 6000)],
+    "families": [fam("C32", 150, 6000)],
     "gen_items": [],
     "rule": "cases: connected join graphs of 2..7 relations (chain, star, cycle, random tree + extra edges, clique <= 4; 1/3 of the edges composite, "
             "1/12 three-column), ~10% disconnected; naming U (unique column names, half unqualified), S (same key name on both sides, qualified), "
             "A (self-joins of 1-2 base tables under aliases); SQL forms JOIN..ON in a random connected traversal, comma / CROSS JOIN list + WHERE in "
-            "random order, JOIN with the extra predicates in WHERE; tables of 0..50 rows, key domain 2..4, NULLs; alternately memory tables (no "
-            "statistics) and Parquet files (footer statistics, 1-2 files, row groups of 3/5/all rows). Each case: bound plan, production optimizer "
+            "random order, JOIN with the extra predicates in WHERE; tables of 0..50 rows, key domain 2..4, NULLs; memory tables with the statistics withheld (mem0), memory tables (row-count "
+            "statistics only) and Parquet files (footer statistics, 1-2 files, row groups of 3/5/all rows). Each case: bound plan, production optimizer "
             "(after the final PackedJoinKeys pass), JoinReorder alone; non-trivial = connected graph with >= 3 relations; distinct by sha256 of the case",
     "trusted_base": COMMON_TB + [
         "plan exporter harness/src/planexport.rs (structural rendering of the public LogicalPlan/Expr enums) and its decoder lean/Driver/PlanJson.lean",
         "extraction of (graph, tree) from an exported plan: IQE.Engine.PlanGraph (executable, not verified; cross-checked on every case against the graph the generator rendered)",
         "modelled not verified: the DPsize enumeration itself (only its invariant C32_dpsize_pairs and the per-program checker are proved)"],
     "assumptions": ["relations of a query have distinct names (aliases); equality predicates are column = column (expression keys are not graph edges for the rule either)"],
-    "min_tags": {"connected": 50, "layout_pq": 20, "layout_mem": 20, "shape_cycle": 3, "shape_star": 3, "shape_chain": 3, "naming_A": 5, "naming_S": 5,
-                 "opt_reordered": 10, "jr_reordered": 10},
+    "min_tags": {"connected": 50, "layout_pq": 20, "layout_mem": 10, "layout_mem0": 10, "shape_cycle": 3, "shape_star": 3, "shape_chain": 3, "naming_A": 5, "naming_S": 5,
+                 "opt_reordered": 10, "jr_reordered": 10, "opt_packed": 1},
+    "explanation": "K = the join graph read off the bound plan equals the graph the generator rendered (validates exporter, decoder and extraction on every case). "
+                   "O = validReorder(g_bound, t) for the production plan and for JoinReorder alone when g is connected (decided by the greedy order, complete by C32_exists), "
+                   "plus answer equality with the unoptimized plan. Plans the optimizer fails to produce are tagged opt_err/jr_err and judged by C31, not here. "
+                   "A failing production plan is attributed to C32-F1 only if validReorderDev (deviation blindRelations: relations rooted in a Project are invisible to the rule) "
+                   "accepts it, JoinReorder alone passes the strict checker and the answers agree.",
     "manifest": {
         "category": "proof",
         "text": "Lean theorems over the join-graph model: a connected graph always has a cross-free join tree using every relation once and every equality "
